@@ -59,9 +59,10 @@ def step_term(s):
     if op == "pub":
         return "CStep (Some LPublish) (XPub %s)" % vlib.coq_bool(s.get("did", False))
     if op == "sub":
-        return "CStep (Some (LSubscribe %d %s %d %s %d)) (XSub %s %d)" % (
+        return "CStep (Some (LSubscribe %d %s %d %s %d)) (XSub %s %d %s)" % (
             s["c"], ts(s["ts"]), s["tok"], vlib.coq_bool(s["ck"] == 0), s.get("qidx", 0),
-            vlib.coq_bool(bool(s.get("err"))), s.get("reqidx", 0))
+            vlib.coq_bool(bool(s.get("err"))), s.get("reqidx", 0),
+            {"err": "PErr", "resume": "PResume", "cache": "PCache", "build": "PBuild"}[s.get("path", "build")])
     if op == "next":
         o = s.get("out")
         if o == "nosub":
@@ -102,7 +103,7 @@ def shard_text(cases):
 
 
 def run_shards(shards, jobs=8, timeout=900):
-    """-> list of (ok, [(diag, query_index_breaks, other_step_ok_breaks)] per case, raw)"""
+    """-> list of (ok, [(diag, known-shape query-index breaks, raft-index breaks, other breaks)] per case, raw)"""
     os.makedirs(vlib.GEN, exist_ok=True)
     paths = []
     for k, cs in enumerate(shards):
@@ -121,7 +122,7 @@ def run_shards(shards, jobs=8, timeout=900):
         m = re.search(r"R\s*=\s*\[(.*?)\]\s*:\s*list", flat)
         if not m:
             return (False, None, out[-3000:])
-        trip = [tuple(int(x) for x in t) for t in re.findall(r"\(\s*(\d+)\s*,\s*(\d+)\s*,\s*(\d+)\s*\)", m.group(1))]
+        trip = [tuple(int(x) for x in t) for t in re.findall(r"\(\s*(\d+)\s*,\s*(\d+)\s*,\s*(\d+)\s*,\s*(\d+)\s*\)", m.group(1))]
         return (True, trip, "")
 
     with ThreadPoolExecutor(max_workers=jobs) as ex:
@@ -131,7 +132,11 @@ def run_shards(shards, jobs=8, timeout=900):
 # ------------------------------------------------------------------ findings, shrinking
 
 def signature(f):
-    return {"kind": f["kind"], "cause": f["cause"]}
+    return {"kind": f["kind"], "cause": f["cause"], "scope": f.get("scope", "")}
+
+
+def finding_fixed(cause):
+    return any(f.get("property") == PROP and f.get("status") == "fixed" and cause in json.dumps(f) for f in vlib.load_known())
 
 
 def replay_json(binp, workdir, steps, cache, drain=True, idx0=False):
@@ -198,34 +203,54 @@ def run(ctx):
     out = os.path.join(ctx.workdir, "cases.jsonl")
     n = 400 if ctx.tier == "quick" else 4000
     cmd = [binp, "-seed", str(ctx.seed), "-tier", ctx.tier, "-n", str(n), "-corpus", os.path.join(vlib.VERIF, "corpus", PROP), "-out", out]
+    respell_fixed = finding_fixed("node-name-respelled")
+    if respell_fixed:
+        cmd.append("-respell")      # node names spelled in two ways, once the view keys no longer depend on the spelling
     rc, o = vlib.sh(cmd, timeout=3000)
     if rc != 0:
         raise vlib.BuildError("harness run failed: " + o[-2000:])
     cases = [json.loads(l) for l in open(out)]
+    # schedules of an OPEN finding in which the real view itself diverges (the model has no such view bug):
+    # executed on the implementation and judged by the oracle only, not compared with the model
+    oracle_only_dir = os.path.join(vlib.VERIF, "corpus", PROP, "oracle-only")
+    oo_cases = []
+    if os.path.isdir(oracle_only_dir):
+        oout = os.path.join(ctx.workdir, "oracle_only.jsonl")
+        rc, o = vlib.sh([binp, "-n", "-1", "-corpus", oracle_only_dir, "-out", oout], timeout=600)
+        if rc != 0:
+            raise vlib.BuildError("harness run failed (oracle-only corpus): " + o[-2000:])
+        oo_cases = [json.loads(l) for l in open(oout)]
+    if respell_fixed:
+        cases = oo_cases + cases
+        oo_cases = []
+    oracle_only = len(oo_cases)
 
     # ---- model vs implementation, inside Coq
     per = 100
     shards = [cases[i:i + per] for i in range(0, len(cases), per)]
     res = run_shards(shards)
-    mism, breaks_step, breaks_raft, break_cases, raft_cases = [], 0, 0, [], []
+    mism, breaks_step, breaks_raft, breaks_other, break_cases, raft_cases, other_cases = [], 0, 0, 0, [], [], []
     for cs, (okk, trip, raw) in zip(shards, res):
         if not okk or len(trip) != len(cs):
             ctx.violation({"kind": "case-file-failed", "log": raw}, found_input=False)
             continue
-        for c, (d, a, b) in zip(cs, trip):
+        for c, (d, a, b, x) in zip(cs, trip):
             if d:
                 mism.append((c, d - 1))
             breaks_step += a
             breaks_raft += b
+            breaks_other += x
             if a:
                 break_cases.append((c, a))
             if b and not c.get("idx0"):
                 raft_cases.append(c)
+            if x:
+                other_cases.append(c)
 
     # ---- direct oracle on the implementation
     known_counts = collections.Counter()
     new_fail = []
-    for c in cases:
+    for c in cases + oo_cases:
         for f in c.get("fails") or []:
             kf = vlib.match_known(PROP, signature(f))
             if kf:
@@ -235,13 +260,19 @@ def run(ctx):
                 new_fail.append((c, f))
     # the assumption of the theorems (query index) broken by the implementation's environment: the recorded finding
     for c, a in break_cases:
-        kf = vlib.match_known(PROP, {"kind": "assumption-break", "cause": "query-index-behind-content"})
+        kf = vlib.match_known(PROP, {"kind": "assumption-break", "cause": "query-index-behind-content", "scope": "service-health"})
         if kf:
             known_counts["assumption-break:query-index-behind-content"] += 1
             ctx.known(kf, "assumption-break cause=query-index-behind-content: " + kf["what"])
         else:
-            new_fail.append((c, {"kind": "assumption-break", "cause": "query-index-behind-content", "step": -1, "c": -1,
+            new_fail.append((c, {"kind": "assumption-break", "cause": "query-index-behind-content", "scope": "service-health", "step": -1, "c": -1,
                                  "msg": "the index a query reported does not cover a commit that touched its subject"}))
+
+    # any other broken clause of step_ok (query index ahead of the raft index, an understated index on a
+    # config-entry topic, a restored store with two rows for one key) is not a recorded finding
+    for c in other_cases:
+        new_fail.append((c, {"kind": "assumption-break", "cause": "step-ok-other-clause", "scope": "", "step": -1, "c": -1,
+                             "msg": "a query index ahead of the raft index, or behind a commit of its subject outside the service-health topics, or a restored store with a duplicate key"}))
 
     # Raft indexes not strictly increasing / above 1: only the corpus case that declares it (idx0) may do that
     for c in raft_cases:
@@ -333,7 +364,9 @@ def run(ctx):
         "traces_validated_against_impl": len(cases) - len(mism),
         "steps_executed": nsteps,
         "model_mismatches": len(mism),
-        "assumption_breaks_observed": {"query_index": breaks_step, "raft_index_in_declared_floor_case": breaks_raft},
+        "assumption_breaks_observed": {"query_index_behind_on_service_health_topics": breaks_step,
+                                       "raft_index_in_declared_floor_case": breaks_raft, "other_clause": breaks_other},
+        "oracle_only_cases": oracle_only,
         "oracle_failures_known": dict(known_counts),
         "oracle_failures_unknown": len(new_fail),
         "generator_flavours": dict(gens),
